@@ -28,6 +28,16 @@ def corpus():
     return C.read_corpus(ID)
 
 
+def thin(rng, sh):
+    """some of the operand's axes get length 1 (numpy broadcasting stretches them); "full" keeps the trailing
+    sub-shape the values are stretched to, which is what the model is given"""
+    if len(sh) >= 1 and rng.random() < 0.3:
+        t = [1 if rng.random() < 0.5 else d for d in sh]
+        if t != list(sh):
+            return t
+    return list(sh)
+
+
 def gen_operand(rng, shape, unit):
     r = rng.random()
     k = rng.choice([2, -3, 0.5, -0.25, 4, 1, -1, 8])
@@ -35,9 +45,10 @@ def gen_operand(rng, shape, unit):
         return {"num": k}
     if r < 0.4:
         nd = rng.randint(1, len(shape))
-        sh = shape[len(shape) - nd:]
+        full = shape[len(shape) - nd:]
+        sh = thin(rng, full)
         n = int(np.prod(sh))
-        return {"arr": [rng.choice([1, -2, 0.5, 4, -0.5, 2]) for _ in range(n)], "shape": sh}
+        return {"arr": [rng.choice([1, -2, 0.5, 4, -0.5, 2]) for _ in range(n)], "shape": sh, "full": full}
     if r < 0.85:
         cu = unit if unit is not None else ""
         kind = rng.choice(["equal", "convertible", "other", "dimensionless"])
@@ -51,8 +62,9 @@ def gen_operand(rng, shape, unit):
             qu = ""
         if rng.random() < 0.3:
             nd = rng.randint(1, len(shape))
-            sh = shape[len(shape) - nd:]
-            return {"q": [rng.choice([1, -2, 0.5, 4]) for _ in range(int(np.prod(sh)))], "shape": sh, "unit": qu}
+            full = shape[len(shape) - nd:]
+            sh = thin(rng, full)
+            return {"q": [rng.choice([1, -2, 0.5, 4]) for _ in range(int(np.prod(sh)))], "shape": sh, "unit": qu, "full": full}
         return {"q": [k], "shape": [], "unit": qu}
     return rng.choice(["cube", "nddata", "cube_nounit", "cube_nounit", "nddata_unit"])
 
@@ -178,9 +190,14 @@ def model_operand(x):
         return "nddata"
     if "num" in x:
         return {"num": frac(x["num"])}
+    def stretched(vals):
+        # length-1 axes of the operand are stretched by numpy; the model sees the stretched trailing block
+        if x.get("full") and list(x["full"]) != list(x["shape"]):
+            return [float(v) for v in np.broadcast_to(np.array(vals, dtype=float).reshape(x["shape"]), x["full"]).ravel()]
+        return vals
     if "arr" in x:
-        return {"arr": [frac(v) for v in x["arr"]]}
-    return {"q": [frac(v) for v in x["q"]], "unit": unit_m(x["unit"])}
+        return {"arr": [frac(v) for v in stretched(x["arr"])]}
+    return {"q": [frac(v) for v in stretched(x["q"])], "unit": unit_m(x["unit"])}
 
 
 def run(case):
